@@ -42,6 +42,7 @@ def getWEv (t : String) : Except String WEv :=
   match t.toList with
   | ['p'] => .ok .pending
   | ['f'] => .ok .fail
+  | ['s'] => .ok .stall
   | 'a' :: r =>
     match (String.ofList r).toNat? with
     | some k => .ok (.accept k)
@@ -50,6 +51,37 @@ def getWEv (t : String) : Except String WEv :=
 
 def getWEvs (s : String) : Except String (List WEv) :=
   if s == "-" then .ok [] else (s.splitOn ",").mapM getWEv
+
+def getFEv (t : String) : Except String FEv :=
+  match t.toList with
+  | ['d'] => .ok .done
+  | ['p'] => .ok .pending
+  | ['f'] => .ok .fail
+  | ['s'] => .ok .stall
+  | _ => .error "bad-fevent"
+
+def getFEvs (s : String) : Except String (List FEv) :=
+  if s == "-" then .ok [] else (s.splitOn ",").mapM getFEv
+
+def getTOp (t : String) : Except String TOp :=
+  match t.toList with
+  | ['c'] => .ok .connect
+  | ['m', 'h'] => .ok (.setMode .handshake)
+  | ['m', 'd'] => .ok (.setMode .distribution)
+  | ['x'] => .ok .close
+  | ['t'] => .ok .takeRead
+  | ['i'] => .ok .isConnected
+  | ['h'] => .ok .hasWrite
+  | 'r' :: r => match unhexTR r [] with
+    | some b => .ok (.read b)
+    | none => .error "bad-op"
+  | 'w' :: r => match unhexTR r [] with
+    | some b => .ok (.write b)
+    | none => .error "bad-op"
+  | 'q' :: r => match unhexTR r [] with
+    | some b => .ok (.writeRaw b)
+    | none => .error "bad-op"
+  | _ => .error "bad-op"
 
 def getMsgs (s : String) : Except String (List Bytes) :=
   if s == "-" then .ok [] else
@@ -76,6 +108,41 @@ def showRes (cap : Nat) : Except RErr Bytes → String
 def showWErr : WErr → String
   | .writeZero => "err-writezero"
   | .io => "err-io"
+  | .timeout => "err-timeout"
+
+def showWRes : Except WErr Unit → String
+  | .ok () => "ok"
+  | .error e => showWErr e
+
+def showTRes (cap : Nat) : TRes → String
+  | .unit => "u"
+  | .bool b => if b then "true" else "false"
+  | .noStream => "nostream"
+  | .msgs ms => if ms.isEmpty then "none" else "+".intercalate (ms.map (showRes cap))
+  | .wire b => "wire=" ++ hexArg b
+
+/-- the harness observes what reached the peer per connection (read to end of stream when the transport lets go of
+the socket), not per write: results of the operations, then `|`, then the wire of every connection in order -/
+def trText (cap : Nat) : TState → List TOp → List String → Bytes → List Bytes → String
+  | st, [], out, cur, wires =>
+    let wires := if st.wr then wires ++ [cur] else wires
+    " ".intercalate out ++ " | " ++ (if wires.isEmpty then "-" else ",".intercalate (wires.map hexArg))
+  | st, op :: r, out, cur, wires =>
+    let (st', res) := tstep cap st op
+    let ended := match op with
+      | .connect => st.wr
+      | .close => st.wr
+      | _ => false
+    let wires' := if ended then wires ++ [cur] else wires
+    let cur' := if ended then [] else cur
+    match res with
+    | .wire b => trText cap st' r (out ++ ["ok"]) (cur' ++ b) wires'
+    | x => trText cap st' r (out ++ [showTRes cap x]) cur' wires'
+
+def isPrefixOf : Bytes → Bytes → Bool
+  | [], _ => true
+  | _ :: _, [] => false
+  | a :: x, b :: y => a == b && isPrefixOf x y
 
 /-- what the harness prints for one body returned by the second copy: the payload of `112 ++ ctl ++ 131,109,len32,data`,
 or the class of the error the rest of the function raises. `none` = keep going, `some` = the call failed. -/
@@ -154,6 +221,42 @@ def handleC05 : List String → Option String
     else if (readAll framingCap m evs).map (showRes framingCap)
         == (msgs.map fun x => "ok=" ++ hexArg x) ++ ["err-eof"] then pure "ok"
     else pure "FAIL model-readAll-differs"
+  | ["c05writef", m, h, s, f] => some <| run do
+    let m ← getMode m
+    let b ← getBytes h
+    let s ← getWEvs s
+    let f ← getFEvs f
+    let o := writeFramed m b s f
+    let c := if o.chunks.isEmpty then "-" else ",".intercalate (o.chunks.map hexOf)
+    pure (showWRes o.res ++ " " ++ c ++ " " ++ toString o.flushes)
+  | ["c05writem", m, ms, s, f] => some <| run do
+    let m ← getMode m
+    let msgs ← getMsgs ms
+    let s ← getWEvs s
+    let f ← getFEvs f
+    let o := writeMany m msgs s f
+    let c := if o.2.isEmpty then "-" else ",".intercalate (o.2.map hexOf)
+    pure ((if o.1.isEmpty then "-" else ",".intercalate (o.1.map showWRes)) ++ " " ++ c)
+  -- what a peer reads from the wire the writes left behind (each accepted chunk arrives as one read)
+  | ["c05wrread", m, ms, s, f] => some <| run do
+    let m ← getMode m
+    let msgs ← getMsgs ms
+    let s ← getWEvs s
+    let f ← getFEvs f
+    let o := writeMany m msgs s f
+    pure (" ".intercalate ((readAll framingCap m (o.2.map .chunk)).map (showRes framingCap)))
+  -- Spec oracle on the implementation's wire: it is a prefix of the protocol's frames of the messages (all of them when `all`)
+  | ["c05wireprop", m, ms, w, all] => some <| run do
+    let m ← getMode m
+    let msgs ← getMsgs ms
+    let w ← getBytes w
+    let want := (msgs.map fun x => beN (if m == .handshake then 2 else 4) x.length ++ x).flatten
+    if !msgs.all (fun x => decide (fits m x)) then pure "FAIL message-does-not-fit"
+    else if all == "all" then pure (if w == want then "ok" else "FAIL wire-is-not-the-frames")
+    else pure (if isPrefixOf w want then "ok" else "FAIL wire-is-not-a-prefix-of-the-frames")
+  | ["c05tr", ops] => some <| run do
+    let ops ← (ops.splitOn ",").mapM getTOp
+    pure (trText framingCap TState.new ops [] [] [])
   | _ => none
 
 end Edp.Drv
